@@ -302,3 +302,17 @@ Proof.
     intros b Hb. cbv beta in Hb. unfold entry_to_binary. cbn [length]. rewrite !app_length, le32_length, Hb.
     destruct (bulen b); rewrite ?le32_length; reflexivity.
 Qed.
+
+(* hypotheses of the codec theorems are satisfiable: one entry of each of the four kinds *)
+Example codec_example :
+  let i := repeat 7 32 in
+  let bs := [mkblob i Data 0 5 None; mkblob i Tree 5 0 None; mkblob i Data 5 9 (Some 100); mkblob i Tree 14 1 (Some 1)] in
+  Forall wf_blob bs /\ total_len bs < U32 /\ contiguous 0 bs /\
+  hdr_from_binary (hdr_to_binary bs) = Ok bs /\ hdr_size bs = Some 188 /\ hdr_pack_size bs = Some 207 /\
+  hdr_from_binary (hdr_to_binary bs ++ [0]) = Err.
+Proof.
+  cbv zeta. split.
+  - repeat constructor; cbn; lia.
+  - split; [reflexivity|]. split; [cbn; repeat split; reflexivity|].
+    split; [vm_compute; reflexivity|]. split; [reflexivity|]. split; [reflexivity|vm_compute; reflexivity].
+Qed.
